@@ -298,6 +298,102 @@ def lines_agree(model_line, impl_line):
 
 
 # --------------------------------------------------------------------------- #
+# Extraction cross-check: a few cases are ALSO evaluated inside Coq (vm_compute on the very definitions the theorems are
+# about) and must give the observations the extracted OCaml driver printed -- this exercises extraction, the OCaml
+# driver's parsing / printing, and the wire format.
+def wire_to_coq(text):
+    toks = text.replace("(", " ( ").replace(")", " ) ").split()
+    pos = [0]
+
+    def one():
+        t = toks[pos[0]]
+        pos[0] += 1
+        if t == "(":
+            items = []
+            while toks[pos[0]] != ")":
+                items.append(one())
+            pos[0] += 1
+            return "SL [" + "; ".join(items) + "]"
+        if re.match(r"-?\d+$", t):
+            return "SI (%s)%%Z" % t
+        return 'SY "%s"' % t
+    return one()
+
+
+def coq_term_to_wire(term):
+    """printed Coq value of type list sx -> list of wire lines"""
+    toks = re.findall(r'SL|SY|SI|"[^"]*"|\[|\]|;|\(|\)|-?\d+', term)
+    pos = [0]
+
+    def sx():
+        t = toks[pos[0]]
+        pos[0] += 1
+        if t == "(":
+            v = sx()
+            pos[0] += 1
+            return v
+        if t == "SI":
+            n = toks[pos[0]]
+            pos[0] += 1
+            if n == "(":
+                n = toks[pos[0]]
+                pos[0] += 2
+            return n
+        if t == "SY":
+            v = toks[pos[0]][1:-1]
+            pos[0] += 1
+            return v
+        if t == "SL":
+            return "(" + " ".join(lst()) + ")"
+        raise ValueError("unexpected token %r" % t)
+
+    def lst():
+        assert toks[pos[0]] == "["
+        pos[0] += 1
+        out = []
+        while toks[pos[0]] != "]":
+            if toks[pos[0]] == ";":
+                pos[0] += 1
+                continue
+            out.append(sx())
+        pos[0] += 1
+        return out
+    return lst()
+
+
+def coq_crosscheck(cases, model_out, limit):
+    picked = [(i, c) for i, c in enumerate(cases)
+              if 2 <= len(c.cmds) <= 40 and sum(map(len, c.cmds)) < 6000 and not any(x.startswith("(x_") for x in c.cmds)][:limit]
+    if not picked:
+        return 0, []
+    d = os.path.join(BUILD, "pa")
+    os.makedirs(d, exist_ok=True)
+    f = os.path.join(d, "CrossCheck.v")
+    with open(f, "w") as fh:
+        fh.write("From MsiModel Require Import Base Sexp PackageCmd Dispatch.\nOpen Scope string_scope.\nSet Printing Width 1000000.\nSet Printing Depth 1000000.\n")
+        for i, c in picked:
+            fh.write('Goal True. idtac "@@%d". Abort.\n' % i)
+            fh.write("Eval vm_compute in run_script init_state [%s].\n" % "; ".join(wire_to_coq(x) for x in c.cmds))
+    rc, out = run(["coqc", "-noglob", "-Q", "theories", "MsiModel", "-Q", "gen", "MsiGen", "-o", os.path.join(d, "CrossCheck.vo"), f], 900, cwd=COQ)
+    if rc != 0:
+        return len(picked), [("coq-crosscheck", "coqc failed: " + out[-400:])]
+    problems = []
+    for chunk in out.split("@@")[1:]:
+        idx, _, rest = chunk.partition("\n")
+        i = int(idx.strip())
+        m = re.search(r"=\s*(\[.*\])\s*:\s*list sx", rest, re.S)
+        if not m:
+            problems.append(("coq-crosscheck", "case %s: no value printed" % cases[i].name))
+            continue
+        got = coq_term_to_wire(m.group(1))
+        if got != model_out[i]:
+            k = next((j for j, (a, b) in enumerate(zip(got, model_out[i])) if a != b), min(len(got), len(model_out[i])))
+            problems.append(("coq-crosscheck", "case %s command %d: Coq says %s, the extracted driver printed %s" % (
+                cases[i].name, k, (got[k] if k < len(got) else "-")[:150], (model_out[i][k] if k < len(model_out[i]) else "-")[:150])))
+    return len(picked), problems
+
+
+# --------------------------------------------------------------------------- #
 def load_known():
     path = os.path.join(VERIF, "known_findings.txt")
     findings = []
@@ -418,6 +514,31 @@ def main():
             broken.append(("harness-build-release", out[-800:]))
     model_exe = os.path.join(BUILD, "ocaml", "model_driver")
 
+    # replay of a recorded failing input: run exactly those commands on both drivers and judge them again
+    if args.replay:
+        rp = json.load(open(args.replay))
+        v = rp.get("violation") or {}
+        cmds = v.get("cmds") or []
+        if not cmds:
+            log("replay %s names no failing input (%s): re-running the whole check instead" % (args.replay, rp.get("kind")))
+        else:
+            c = Case("replay", cmds, tuple(v.get("tags", ())))
+            mo = run_sharded(os.path.join(BUILD, "ocaml", "model_driver"), [c], 900) if ok_ml else [["?"] * len(cmds)]
+            io = run_sharded(impl_exe, [c], 900) if ok_rs else [["?"] * len(cmds)]
+            for cmd, a, b in zip(cmds, mo[0], io[0]):
+                log("cmd   %s\n  model %s\n  impl  %s%s" % (cmd[:300], a[:300], b[:300], "" if lines_agree(a, b) else "   <-- differ"))
+            ctx = Ctx([c], io, mo, lambda cs: run_sharded(os.path.join(BUILD, "ocaml", "model_driver"), cs, 900),
+                      lambda cs: run_sharded(impl_exe, cs, 900), "debug", tier)
+            found = mod.oracle(ctx) if ok_rs else []
+            for f in found[:5]:
+                log("oracle: %s" % str(f.get("what"))[:400])
+            differ = any(not lines_agree(a, b) for a, b in zip(mo[0], io[0]))
+            if found or differ or broken:
+                log("VIOLATION property=%s replay=%s" % (prop, args.replay))
+                sys.exit(1)
+            log("replay: the recorded input no longer fails")
+            sys.exit(0)
+
     # 5 cases: corpus first, then generated
     rng = random.Random(seed * 1000003 + sum(map(ord, prop)))
     cases = []
@@ -457,6 +578,10 @@ def main():
                     if not lines_agree(ml, il):
                         mismatches.append({"profile": pname, "case": c.name, "index": li, "cmd": cmd,
                                            "model": ml, "impl": il, "cmds": c.cmds[:li + 1]})
+        # extraction cross-check on the debug-profile model outputs
+        n_cc, cc_problems = coq_crosscheck(cases, model_out["debug"], 3 if tier == "quick" else 25)
+        notes.append("extraction cross-check: %d cases re-evaluated inside Coq (vm_compute), %d disagreements" % (n_cc, len(cc_problems)))
+        broken.extend(cc_problems)
         # 6 direct oracle on the implementation's outputs
         known = [k for k in load_known()]
         for pname, exe in impl_exes:
